@@ -346,7 +346,7 @@ def handle (line : String) : String :=
           | .ok out => s!"ok:{hexOf out}"
           | .error e => s!"err:{errName e}"
       -- is the program in the fragment for which the refinement theorem is proved?
-      let frag := if MJ.Compile.simpleBlock prog then "frag3" else "-"
+      let frag := if MJ.Compile.simpleBlock false prog then "frag3" else "-"
       s!"{id}\t{res}\t{codeStr prog}\t{vm}\t{frag}\t{vmM}"
     | none, _ => s!"{id}\tbad-case:ctx"
     | _, none => s!"{id}\tbad-case:prog"
